@@ -32,6 +32,8 @@ def sentinels(opt, n):
         return ['S%d_%s' % (i, opt.replace('-', '')) for i in range(n)]
     if t == 'style':
         return [str(17 + i) for i in range(n)]
+    if t == 'style-normal':
+        return ['normal %d' % (17 + i) for i in range(n)]
     if t == 'bool':
         return ['true', 'false'] * ((n + 1) // 2)
     if t == 'usize':
@@ -49,6 +51,8 @@ OPTIONS = {
     'file-modified-label': 'string', 'file-added-label': 'string', 'file-renamed-label': 'string', 'right-arrow': 'string',
     'word-diff-regex': 'string',
     'file-style': 'style', 'commit-style': 'style', 'minus-style': 'style', 'zero-style': 'style', 'grep-file-style': 'style',
+    'minus-emph-style': 'style-normal', 'plus-emph-style': 'style-normal', 'minus-non-emph-style': 'style-normal', 'plus-style': 'style-normal',
+    'hunk-header-style': 'style',
     'keep-plus-minus-markers': 'bool', 'hyperlinks-commit-link-format': None,
     'tabs': 'usize', 'max-line-length': 'usize', 'diff-stat-align-width': 'usize',
     'max-line-distance': 'float',
@@ -86,7 +90,7 @@ COLOR_NUM.update({'bright' + k: str(int(v) + 8) for k, v in list(COLOR_NUM.items
 
 def norm_value(opt, v):
     t = OPTIONS.get(opt)
-    if t == 'style':
+    if t in ('style', 'style-normal'):
         v = v.strip('"')
         v = ' '.join(SYN.get(w.replace('bright-', 'bright'), w.replace('bright-', 'bright')) for w in v.split())
         v = ' '.join(COLOR_NUM.get(w, w) for w in v.split())
@@ -203,6 +207,12 @@ def families():
         for k in (1, 2):
             for combo in itertools.combinations(others, k):
                 yield ('cli-wins', (o, combo))
+        # F1b: command line beats whatever a built-in feature (enabled by any means) would set or adjust
+        for b in ('side-by-side', 'line-numbers', 'navigate', 'diff-so-fancy', 'diff-highlight', 'hyperlinks', 'raw'):
+            if o == 'max-line-length' and b == 'side-by-side':
+                continue      # (side-by-side raises the effective limit to what the wrapped rows can hold: documented, derived value)
+            for where in ('cli-flag', 'main-flag', 'feature-list-arg', 'feature-list-main', 'feature-list-env'):
+                yield ('cli-wins-under-builtin', (o, b, where))
         # F2: main section / GIT_CONFIG_PARAMETERS beat features
         for main_src in (('main',), ('gcp-new',), ('gcp-old',), ('main', 'gcp-new')):
             for how in ('arg', 'main', 'env'):
@@ -262,6 +272,26 @@ def build(family, params, defaults):
             return None
         p.why = 'a value given on the command line is never overridden'
         p.nsources = 1 + len(combo)
+    elif family == 'cli-wins-under-builtin':
+        o, b, where = params
+        S = sentinels(o, 6)
+        p = Placement(o)
+        p.cli[o] = S[0]
+        if where == 'cli-flag':
+            p.cli_flags.append(b)
+        elif where == 'main-flag':
+            p.main[b] = 'true'
+        elif where == 'feature-list-arg':
+            p.features_arg = b
+        elif where == 'feature-list-main':
+            p.main['features'] = b
+        else:
+            p.env_features = b
+        p.expected = S[0]
+        if OPTIONS[o] == 'bool' and S[0] == 'false':
+            return None
+        p.why = 'a value given on the command line is never overridden (here: by what the built-in feature %s sets or adjusts)' % b
+        p.nsources = 2
     elif family == 'main-wins':
         o, main_src, how = params
         S = sentinels(o, 6)
